@@ -57,8 +57,9 @@ def run(pid, max_seeds=None):
         subprocess.check_call(["rsync", "-a", "--delete", "--exclude", "/target", "--exclude", "/.git",
                                harness.REPO.rstrip("/") + "/", scratch + "/"])
         env = dict(os.environ)
-        env.update({"VERIF_REPO": scratch, "VERIF_CACHE_NS": "sens", "VERIF_NESTED": "1", "VERIF_TIER": "quick",
-                    "VERIF_EVIDENCE_DIR": os.path.join(harness.CACHE, "sens-evidence"),
+        ns = "sens-%d" % os.getpid()       # own fact cache: concurrent thorough runs must not share one
+        env.update({"VERIF_REPO": scratch, "VERIF_CACHE_NS": ns, "VERIF_NESTED": "1", "VERIF_TIER": "quick",
+                    "VERIF_EVIDENCE_DIR": os.path.join(harness.CACHE, "evidence-" + ns),
                     "GIT_CEILING_DIRECTORIES": os.path.dirname(scratch)})
         for s in seeds:
             t0 = time.time()
@@ -88,4 +89,11 @@ def run(pid, max_seeds=None):
             results.append(r)
     finally:
         shutil.rmtree(scratch, ignore_errors=True)
+        shutil.rmtree(os.path.join(harness.CACHE, "facts-sens-%d" % os.getpid()), ignore_errors=True)
+        shutil.rmtree(os.path.join(harness.CACHE, "evidence-sens-%d" % os.getpid()), ignore_errors=True)
+        for lf in glob.glob(os.path.join(harness.CACHE, "factssens-%d-*.lock" % os.getpid())):
+            try:
+                os.remove(lf)
+            except OSError:
+                pass
     return results, lost
